@@ -1,4 +1,5 @@
 """C06 - a failing job fails the pipestance, blocks only its dependents, is reported."""
+import json
 import os
 import random
 
@@ -47,11 +48,18 @@ def check(ctx, args):
             continue
         jobs = pipelib.clean_jobs(d)
         splits = pipelib.splits_of(d)
+        spec = json.load(open(os.path.join(d, "spec.json")))["stages"]
+        noouts = {n for n, b in spec.items() if not b.get("outs")}
         for k in range(per_prog):
             jid, stage, phase = rnd.choice(jobs)
             kind = KINDS[(k + rnd.randrange(len(KINDS))) % len(KINDS)]
-            if kind == "missing_key" and (phase == "split" or (phase == "main" and stage in splits)):
-                kind = "invalid"      # not validated by martian by design, see MANIFEST note
+            if kind in ("missing_key", "wrong_type") and (phase == "split" or (phase == "main" and stage in splits)):
+                # chunk definitions and chunk outs are validated against the declared
+                # types only under --strict (Chunk.verifyOutput returns early at the
+                # default enforcement level): by design, see MANIFEST note
+                kind = "invalid"
+            if kind in CONTENT and stage in noouts:
+                kind = "exit"         # a stage without output parameters: the content of _outs is never read
             retry, once = "0", False
             r = rnd.random()
             if kind == "signal" and r < 0.5:
